@@ -432,6 +432,13 @@ def c06_type_queries(res):
                 for T in types:
                     seen.append((repr(T), bool(ab.isinstance(x, T)), isinstance(val, T)))
                 seen.append(("type", ab.type(x), type(val)))
+                # autograd's own tuple/list/dict classes answer through their metaclasses, with Python's
+                # builtin isinstance as well as with autograd's
+                import builtins as _b
+
+                for T in (ab.tuple, ab.list, ab.dict):
+                    seen.append(("builtin isinstance " + T.__name__, bool(_b.isinstance(x, T)), _b.isinstance(val, T)))
+                    seen.append(("ag isinstance ag." + T.__name__, bool(ab.isinstance(x, T)), _b.isinstance(val, T)))
                 return x
 
             try:
